@@ -111,3 +111,32 @@ def run(ctx):
             b = " ".join(src(x) for x in n.body)
             ok = "TagEdit.parent_id.in_(tag_hashes)" in b and "parents=[tag_row.tag_hash]" in b and "new=True" in b
     r3.check(ok, f"{db.rel}:RedunBackendDb.record_tags:new", "re-adding a superseded pair does not walk to a fresh leaf of the edit graph (it would stay superseded)", db.rel, rt.lineno)
+
+    # ---- C24.4 selecting pairs by value must work for every JSON value, including null ---------------
+    r4 = ctx.rule("C24.4", "value equality filters on Tag.value handle JSON null", floor=1)
+    nsel = 0
+    for q, fn in db.funcs.items():
+        if not (q.startswith("RedunBackendDb.") and q.endswith("_tags")):
+            continue  # the tag-command API (record/delete/update/get _tags); internal context-hash lookups are C05's
+        for n in ast.walk(fn):
+            if isinstance(n, ast.Compare) and len(n.ops) == 1 and isinstance(n.ops[0], ast.Eq) and src(n.left) == "Tag.value":
+                rhs = n.comparators[0]
+                if isinstance(rhs, ast.Constant):
+                    continue
+                nsel += 1
+                # the compared Python value: the argument of a cast, or the operand itself
+                pv = rhs.args[0] if isinstance(rhs, ast.Call) and rhs.args else rhs
+                handled = any(
+                    isinstance(t, (ast.IfExp, ast.If)) and (f"{src(pv)} is None" in src(t.test) or f"{src(pv)} is not None" in src(t.test)) and any(n is x for x in ast.walk(t))
+                    for t in ast.walk(fn)
+                )
+                r4.check(
+                    handled,
+                    f"{db.rel}:{q}:Tag.value=={src(pv)}",
+                    f"`{src(n)}` selects tags by value, but for {src(pv)} = None (the JSON value null, written `key=` on the command line) the right-hand side is SQL NULL and `= NULL` is never true: "
+                    "the pair k=null can be added and listed but never deleted by value",
+                    db.rel,
+                    n.lineno,
+                )
+    if nsel == 0:
+        raise AnalysisError("no value-equality selection on Tag.value found (anchor vanished)", "RedunBackendDb.delete_tags")
